@@ -202,13 +202,10 @@ pub fn spec_for(id: &str, tier: Tier, cfg: &Cfg) -> Spec {
     // Non-closing configurations (orbits that never repeat) are limited by the horizon; they get
     // bound 1 in the thorough tier too, closing ones bound 2.
     let closing = closes(cfg);
-    let bound = if q {
-        1
-    } else if closing && cfg.chunk <= 8 {
-        2
-    } else {
-        1
-    };
+    // bound 2 where orbits close and chunks are small (both tiers); in the quick tier the second
+    // layer offers the ratio/chunk/reset alphabet only
+    let bound = if closing && cfg.chunk <= 8 { 2 } else { 1 };
+    let alpha_deep = if q { Alpha::Ratio } else { alpha };
     let horizon = if q { [48, 24, 12, 8] } else { [128, 32, 12, 8] };
     let signal = if id == "C10" || id == "C17" {
         Signal::Noise
@@ -222,12 +219,31 @@ pub fn spec_for(id: &str, tier: Tier, cfg: &Cfg) -> Spec {
     Spec {
         cfg: cfg.clone(),
         alpha,
+        alpha_deep,
         bound,
         horizon,
         props: Props::only(id),
         signal,
         max_states: if q { 30_000 } else { 300_000 },
-        final_layer: if id == "C10" { vec![Op::Z] } else { vec![] },
+        // operations applied (not followed) in the states of the last layer, so that the
+        // property's own operation is tried in every explored state
+        final_layer: match id {
+            "C10" => vec![Op::Z],
+            "C13" => {
+                use crate::ops::Bad;
+                let last = (cfg.channels - 1) as u8;
+                vec![
+                    Op::Bad(Bad::InChans(1)),
+                    Op::Bad(Bad::OutChans(i8::MIN)),
+                    Op::Bad(Bad::MaskLen(1)),
+                    Op::Bad(Bad::InShort(0, 1)),
+                    Op::Bad(Bad::OutShort(last, 1)),
+                    Op::Bad(Bad::OutShort(0, 3)),
+                ]
+            }
+            _ => vec![],
+        },
+        final_layer_first_only: id == "C13",
         sample_every: if id == "C10" { if q { 16 } else { 8 } } else { 0 },
     }
 }
@@ -375,7 +391,7 @@ impl Check for CtrlCheck {
         let its = items(tier, self.id);
         let ncfg: usize = its.iter().map(|i| i.cfgs.len()).sum();
         cov.insert("configurations".into(), json!(ncfg));
-        cov.insert("deviation_bound_completed".into(), json!(if tier == Tier::Quick { "1" } else { "2 on closing configurations with chunk <= 8, 1 elsewhere" }));
+        cov.insert("deviation_bound_completed".into(), json!(if tier == Tier::Quick { "2 on closing configurations with chunk <= 8 (second layer: ratio/chunk/reset alphabet), 1 elsewhere" } else { "2 on closing configurations with chunk <= 8 (full alphabet in both layers), 1 elsewhere" }));
         let mut per_kind: std::collections::BTreeMap<String, (u64, u64)> = Default::default();
         for v in items_v {
             let label = v["label"].as_str().unwrap_or("?");
